@@ -38,10 +38,11 @@ const (
 	hkDeep
 	hkBBReuse
 	hkDetMap
+	hkInvalidType
 	hkNum
 )
 
-var hkNames = []string{"Marshal", "MarshalWrite", "Unmarshal", "UnmarshalRead", "Format", "v1", "EncoderProgram", "Big", "Deep", "BytesBufferReuse", "DeterministicMap"}
+var hkNames = []string{"Marshal", "MarshalWrite", "Unmarshal", "UnmarshalRead", "Format", "v1", "EncoderProgram", "Big", "Deep", "BytesBufferReuse", "DeterministicMap", "InvalidStructType"}
 
 // HistSpec is one self-contained call. Everything it needs is fixed at plan
 // time from its own tape stream; executing it twice must give the same
@@ -96,7 +97,7 @@ func (o outcome) String() string {
 func (sc *Hist) planSpec(t *core.Tape, env *Env, idx int, beh map[int]peers.Behaviour) HistSpec {
 	s := t.S(fmt.Sprintf("call/%d/spec", idx))
 	sp := HistSpec{}
-	sp.Kind = s.Weighted(4, 3, 4, 3, 2, 1, 2, 1, 1, 1, 1)
+	sp.Kind = s.Weighted(4, 3, 4, 3, 2, 1, 2, 1, 1, 1, 1, 1)
 	sp.KindName = hkNames[sp.Kind]
 	sp.Opts = genArshalOpts(s)
 	switch sp.Kind {
@@ -143,6 +144,13 @@ func (sc *Hist) planSpec(t *core.Tape, env *Env, idx int, beh map[int]peers.Beha
 		}
 		sp.Input = string(in)
 		sp.Target = is.Draw(len(decTargets))
+		if is.Chance(1, 3) {
+			// types with embedded fallback maps: they share per-type state across calls
+			sp.Target = []int{5, 11, 12}[is.Draw(3)]
+			if in2 := gen.Text(is, gen.JSONCfg{MaxBytes: 600, MaxDepth: 2}); len(in2) > 0 && !faulty {
+				sp.Input = `{"k0":null,"u1":` + string(in2) + `,"u2":{"a":[1,2]},"u3":"` + strings.Repeat("z", is.Draw(200)) + `","u4":3}`
+			}
+		}
 		sp.Desc = decTargets[sp.Target].Name
 		if sp.Kind == hkUnmarshalRead {
 			n := len(in)
@@ -186,6 +194,9 @@ func (sc *Hist) planSpec(t *core.Tape, env *Env, idx int, beh map[int]peers.Beha
 	case hkDeep:
 		sp.Sub = s.Draw(5)
 		sp.Desc = []string{"Marshal 1200-deep []any", "Marshal cyclic map", "Marshal 1100-deep pointer chain", "Unmarshal 1500-deep text", "Marshal deep chain whose leaf panics once, then again"}[sp.Sub]
+	case hkInvalidType:
+		sp.Sub = s.Draw(12)
+		sp.Desc = fmt.Sprintf("Marshal/Unmarshal of an invalid struct type (variant %d) at position %d", sp.Sub%3, sp.Sub/3)
 	case hkDetMap:
 		sp.Sub = 2 + s.Draw(40)
 		sp.Desc = fmt.Sprintf("Deterministic(true) over maps with %d keys built in two insertion orders", sp.Sub)
@@ -407,7 +418,10 @@ func (h *histRun) exec(idx int, sp *HistSpec) (o outcome) {
 		if sp.UseBB {
 			var bb bytes.Buffer
 			err = json.MarshalWrite(&bb, sp.val.Interface(), opts...)
-			got = bb.Bytes()
+			got = append([]byte(nil), bb.Bytes()...)
+			// the caller goes on using its buffer; what it holds must stay intact
+			bb.WriteString("#caller's own bytes after the JSON#")
+			h.keep(idx, "caller's bytes.Buffer after MarshalWrite", bb.Bytes())
 		} else {
 			sw := core.NewSimWriter(sp.Write)
 			sw.Yield = h.yield
@@ -626,6 +640,33 @@ func (h *histRun) exec(idx int, sp *HistSpec) (o outcome) {
 		}
 	}
 	switch sp.Kind {
+	case hkInvalidType:
+		// the same unusable type at different positions in different calls: the
+		// error (incl. its position) must be the one for THIS call
+		var v any
+		switch sp.Sub % 3 {
+		case 0:
+			v = badDupT{}
+		case 1:
+			v = badTagT{}
+		default:
+			v = badEmbedT{}
+		}
+		switch sp.Sub / 3 {
+		case 1:
+			v = []any{1, v}
+		case 2:
+			v = map[string]any{"in": []any{"x", "y", v}}
+		case 3:
+			v = struct {
+				Pad string
+				V   any
+			}{strings.Repeat("p", 100), v}
+		}
+		out, err := json.Marshal(v)
+		tgt := reflect.New(reflect.TypeOf(v))
+		uerr := json.Unmarshal([]byte(`[1,{"A":1}]`), tgt.Interface())
+		return outcome{Out: string(out), Err: classify(err), Extra: classify(uerr).String()}
 	case hkDetMap:
 		out1, out2, err := DetMapBytes(sp.Sub)
 		extra := ""
@@ -944,6 +985,19 @@ func RunRace(seed uint64, goroutines int, dur time.Duration) *RaceResult {
 	res.Calls = calls.Load()
 	res.WallS = time.Since(t0).Seconds()
 	return res
+}
+
+type badDupT struct {
+	A int `json:"x"`
+	B int `json:"x"`
+}
+type badTagT struct {
+	A int `json:"a,omitempty,bogus:option"`
+	B int `json:",string,string"`
+}
+type badEmbedT struct {
+	A int
+	R map[int]int `json:",embed"`
 }
 
 // DetMapBytes marshals the same key/value set, built in two different
